@@ -2,6 +2,7 @@ package rules
 
 import (
 	"fmt"
+	"go/token"
 	"go/types"
 	"sort"
 	"strings"
@@ -356,24 +357,47 @@ func runC04(c *engine.Ctx) {
 				return ""
 			}}, "every exit that did not insert returns a non-nil error")
 	}
-	hc := fn(c, "server.Service.handleConnection")
 	svcRegObj := method(c, "server", "Service", "RegisterWorkConn")
-	if hc != nil && svcRegObj != nil {
-		for _, call := range engine.CallsTo(hc, svcRegObj) {
-			n++
-			cv := call.Value()
-			c.AllPaths("server.Service.handleConnection>close-on-refusal", engine.PathCheck{Fn: hc, From: call, Sink: engine.IsReturn,
-				Event: closeOfParam("conn"),
-				Pred: func(st *engine.PathState) string {
-					isNil, known := st.IsNil(func(v ssa.Value) bool { return v == cv })
-					if known && isNil {
+	if svcRegObj != nil {
+		// whichever function hands the connection to RegisterWorkConn (handleConnection on the confirmed tree, or a
+		// helper split out of it) closes that very connection when the registration is refused
+		hosts := 0
+		for _, hc := range p.RepoFuncs() {
+			hc := hc
+			for _, call := range engine.CallsTo(hc, svcRegObj) {
+				n++
+				hosts++
+				cv := call.Value()
+				connArg := engine.Unwrap(engine.CallArgs(call)[1])
+				c.AllPaths(p.FuncName(hc)+">close-on-refusal", engine.PathCheck{Fn: hc, From: call, Sink: engine.IsReturn,
+					Event: func(in ssa.Instruction) string {
+						cc, ok := in.(ssa.CallInstruction)
+						if !ok {
+							return ""
+						}
+						if o := engine.CalleeObj(cc); o == nil || o.Name() != "Close" {
+							return ""
+						}
+						a := engine.CallArgs(cc)
+						if len(a) > 0 && engine.SameValue(engine.Unwrap(a[0]), connArg) {
+							return "close"
+						}
 						return ""
-					}
-					if !st.HasEvent("close") {
-						return "after RegisterWorkConn returned an error (or unchecked) the connection is not closed on this path"
-					}
-					return ""
-				}}, "connection closed whenever RegisterWorkConn returns non-nil")
+					},
+					Pred: func(st *engine.PathState) string {
+						isNil, known := st.IsNil(func(v ssa.Value) bool { return v == cv })
+						if known && isNil {
+							return ""
+						}
+						if !st.HasEvent("close") {
+							return "after RegisterWorkConn returned an error (or unchecked) the connection is not closed on this path"
+						}
+						return ""
+					}}, "connection closed whenever RegisterWorkConn returns non-nil")
+			}
+		}
+		if hosts == 0 {
+			c.Undecide("server.Service.RegisterWorkConn>caller", token.NoPos, "nothing calls Service.RegisterWorkConn any more")
 		}
 	}
 	c.Floor(n, 4)
